@@ -243,8 +243,6 @@ def family(tier: str) -> list:
     res = []
     for rules in out:
         lg = RefGrammar({k: to_letters(v) for k, v in rules.items()})
-        if "nullable_under_star_plus" in families.features(lg):
-            continue
         if not WordMatcher(lg, "").member() and not any(viable(lg, c) for c in "pqrst"):
             continue  # empty language after projection
         if any(_alt_with_invisible_branch(b) for b in rules.values()):
